@@ -106,6 +106,13 @@ def user_ctx(rng, length=14, **kw):
             if st is not None:
                 steps.append(st)
         steps.append(g.base_class(force_parent=True))
+    # contexts asked for units without definition: two of them in ONE type
+    # that has a reference unit
+    if kw.get("undefined_units"):
+        st = g.undefined_unit_in()
+        if st is not None:
+            steps.append(st)
+            steps.append(g.undefined_unit_in(st["op"][1]))
     # targeted: two units of ONE derived type, each defined by a term with a
     # plain-int factor (the factor between them is int / int), and one more
     # term-defined unit
